@@ -102,6 +102,9 @@ type NNPCase struct {
 	GoMaxProcs int    `json:"gomaxprocs,omitempty"`
 	// CallerLocked: the calling goroutine has locked its OS thread itself before the call
 	CallerLocked bool `json:"caller_locked,omitempty"`
+	// PresetOnMain: the main thread sets no_new_privs first (exported SetNoNewPrivs); the load then runs on another,
+	// already existing OS thread that does not carry the bit.
+	PresetOnMain bool `json:"preset_on_main,omitempty"`
 }
 
 var (
@@ -245,6 +248,9 @@ func RunChild(bin, mode string, c *ChildCase, strace bool, timeout time.Duration
 	var so, se bytes.Buffer
 	cmd.Stdout, cmd.Stderr = &so, &se
 	cmd.Env = append(os.Environ(), "GOTRACEBACK=single")
+	if c.NNPCase != nil && c.NNPCase.PresetOnMain {
+		cmd.Env = append(cmd.Env, "VCHILD_LOCK_MAIN=1") // keeps the main goroutine on the main thread
+	}
 	cmd.SysProcAttr = &syscall.SysProcAttr{Setpgid: true} // own process group: the watchdog kills the whole group
 	cmd.WaitDelay = 2 * time.Second
 	if c.Unprivileged && !strace {
